@@ -5,6 +5,7 @@
 import Irc.InvProofs.ModesLemmas
 
 namespace Irc
+open Modes
 
 variable {cfg : Cfg} {c : Nat} {x : Ctx}
 
@@ -50,7 +51,7 @@ theorem invCore_processInvite {nickname channel : Str} {msg : Message} (h : InvC
 
 /-! ### TOPIC -/
 
-theorem rankMirror_of_eq {C C' : Channel} (h : RankMirror C) (hm : C'.modes = C.modes)
+theorem Modes.rankMirror_of_eq {C C' : Channel} (h : RankMirror C) (hm : C'.modes = C.modes)
     (hu : C'.users = C.users) : RankMirror C' := by
   obtain ⟨a, b, c, d, e⟩ := h
   constructor <;> rw [hm, hu] <;> assumption
@@ -77,7 +78,7 @@ theorem invCore_processTopic {channel : Str} {topic : Option Str} {msg : Message
         simp only
         split
         · rw [Ctx.sendAll_w_eq]
-          · refine ⟨?_, SameConnIds.of_conns rfl⟩
+          · refine ⟨?_, sameConnIds_of_conns rfl⟩
             refine invCore_channel_update h hch ?_ ?_ ?_ rfl rfl rfl rfl rfl rfl rfl rfl rfl
             · rfl
             · exact rankMirror_of_eq (h.rankMirror _ _ hch) rfl rfl
@@ -90,7 +91,7 @@ theorem invCore_processTopic {channel : Str} {topic : Option Str} {msg : Message
 /-! ### OPER -/
 
 /-- the world after a successful OPER -/
-theorem invCore_oper_world {w : World} (h : InvCore w) {n : Str} {u : User}
+theorem Modes.invCore_oper_world {w : World} (h : InvCore w) {n : Str} {u : User}
     (hu : Map.lookup n w.users = some u) :
     let w1 : World := { w with users := Map.insert n { u with modes := { u.modes with oper := true } } w.users }
     let w' : World := if !u.modes.isLocalOper then { w1 with operatorsCount := w1.operatorsCount + 1 } else w1
@@ -98,7 +99,7 @@ theorem invCore_oper_world {w : World} (h : InvCore w) {n : Str} {u : User}
   intro w1 w'
   have hcn : w'.conns = w.conns := by
     simp only [w', w1]; split <;> rfl
-  refine ⟨?_, SameConnIds.of_conns hcn⟩
+  refine ⟨?_, sameConnIds_of_conns hcn⟩
   refine invCore_user_update h hu (u' := { u with modes := { u.modes with oper := true } })
     rfl rfl ?_ ?_ ?_ ?_ hcn ?_ ?_ ?_ ?_ ?_
   · intro hk; exact h.killedFlagged n u hu hk
@@ -137,7 +138,7 @@ theorem invCore_processOper {name password : Str} (h : InvCore x.w) (hl : Live x
 
 /-! ### KILL / DIE / SQUIT -/
 
-theorem invCore_fireKill {w : World} (killer comment nick : Str) (h : InvCore w) :
+theorem Modes.invCore_fireKill {w : World} (killer comment nick : Str) (h : InvCore w) :
     InvCore (fireKill killer comment nick w) ∧ SameConnIds w (fireKill killer comment nick w) := by
   unfold fireKill
   cases hu : Map.lookup nick w.users with
@@ -173,7 +174,7 @@ theorem invCore_fireKill {w : World} (killer comment nick : Str) (h : InvCore w)
           · intro hw'; exact ⟨u, hu, hw'⟩
         · simp [e]
 
-theorem invCore_fireKill_fold {w : World} (killer comment : Str) (ns : List Str) (h : InvCore w) :
+theorem Modes.invCore_fireKill_fold {w : World} (killer comment : Str) (ns : List Str) (h : InvCore w) :
     InvCore (ns.foldl (fun w n => fireKill killer comment n w) w) ∧
       SameConnIds w (ns.foldl (fun w n => fireKill killer comment n w) w) := by
   induction ns generalizing w with
@@ -205,7 +206,7 @@ theorem invCore_processDie {message : Option Str} (h : InvCore x.w) (hl : Live x
   split
   · obtain ⟨h1, s1⟩ := invCore_fireKill_fold n (message.getD (str "Quitting from DIE"))
       (Map.keys x.w.users) h
-    exact ⟨h1.of_fields rfl rfl rfl rfl rfl rfl rfl rfl rfl, s1⟩
+    exact ⟨invCore_of_fields h1 rfl rfl rfl rfl rfl rfl rfl rfl rfl, s1⟩
   · exact invCore_of_w_eq h rfl
 
 theorem invCore_processSquit {server comment : Str} (h : InvCore x.w) (hl : Live x.w c)
@@ -216,5 +217,189 @@ theorem invCore_processSquit {server comment : Str} (h : InvCore x.w) (hl : Live
   split
   · exact invCore_of_w_eq h rfl
   · exact invCore_processDie h hl ha
+
+/-! ### MODE (user) -/
+
+theorem Modes.umode_fold_inv {cn : Conn} {w0 : World} {target : Str} {ui uo : Nat}
+    (hbi : ui ≤ w0.invisibleCount) (hbo : uo ≤ w0.operatorsCount)
+    (modes : List (Str × List Str)) {a : UModeAcc} (h : UAccInv w0 target ui uo a) :
+    UAccInv w0 target ui uo (modes.foldl (fun a g =>
+        g.1.foldl (umodeChar cfg cn target) { a with modeSet := false }) a) := by
+  induction modes generalizing a with
+  | nil => exact h
+  | cons g gs ih =>
+    simp only [List.foldl_cons]
+    apply ih
+    have h0 : UAccInv w0 target ui uo { a with modeSet := false } :=
+      ⟨h.1, h.2, h.3, h.4, h.5, h.6, h.7, h.8, h.9⟩
+    generalize ({ a with modeSet := false } : UModeAcc) = b at h0
+    induction g.1 generalizing b with
+    | nil => exact h0
+    | cons ch cs ih2 => simp only [List.foldl_cons]; exact ih2 _ (umodeChar_inv hbi hbo h0 ch)
+
+theorem invCore_processModeUser {target : Str} {modes : List (Str × List Str)} {u : User}
+    (h : InvCore x.w) (hu : Map.lookup target x.w.users = some u) :
+    InvCore (processModeUser cfg c target modes x).w ∧
+      SameConnIds x.w (processModeUser cfg c target modes x).w := by
+  unfold processModeUser
+  simp only [hu]
+  split
+  · exact invCore_of_w_eq h rfl
+  · have hbi : u.modes.invisible.toNat ≤ x.w.invisibleCount := by
+      rw [h.invisibleCount]
+      rcases Bool.eq_false_or_eq_true u.modes.invisible with e | e
+      · have := Map.filter_pos_of_lookup (fun v : User => v.modes.invisible) target _ u hu e
+        rw [e]; exact this
+      · rw [e]; exact Nat.zero_le _
+    have hbo : u.modes.isLocalOper.toNat ≤ x.w.operatorsCount := by
+      rw [h.operatorsCount]
+      rcases Bool.eq_false_or_eq_true u.modes.isLocalOper with e | e
+      · have := Map.filter_pos_of_lookup (fun v : User => v.modes.isLocalOper) target _ u hu e
+        rw [e]; exact this
+      · rw [e]; exact Nat.zero_le _
+    have h0 : UAccInv x.w target u.modes.invisible.toNat u.modes.isLocalOper.toNat
+        { x := x, modes := u.modes } := by
+      refine ⟨rfl, rfl, rfl, rfl, rfl, rfl, rfl, rfl, ?_⟩
+      intro k
+      by_cases e : k = target
+      · subst e; simp only [↓reduceIte]
+        rw [h.wallopsSet k]
+        constructor
+        · rintro ⟨v, hv, hw'⟩; rw [hu] at hv; cases hv; exact hw'
+        · intro hw'; exact ⟨u, hu, hw'⟩
+      · simp [e]
+    have hf := umode_fold_inv (cfg := cfg) (cn := x.conn c) hbi hbo modes h0
+    generalize (modes.foldl (fun a g =>
+        g.1.foldl (umodeChar cfg (x.conn c) target) { a with modeSet := false })
+        ({ x := x, modes := u.modes } : UModeAcc)) = a at hf
+    have key : InvCore ({ a.x.w with users := Map.modify target (fun u => { u with modes := a.modes }) a.x.w.users } : World) ∧
+        SameConnIds x.w { a.x.w with users := Map.modify target (fun u => { u with modes := a.modes }) a.x.w.users } := by
+      refine ⟨?_, sameConnIds_of_conns hf.conns⟩
+      refine invCore_user_update h hu (u' := { u with modes := a.modes }) rfl rfl ?_ ?_
+        hf.panicked hf.channels hf.conns hf.maxUsers hf.connsCount hf.inv hf.ops hf.wl
+      · intro hk; exact h.killedFlagged _ _ hu hk
+      · show Map.modify _ _ a.x.w.users = _
+        rw [hf.users]; exact Map.modify_congr_of_lookup _ _ _ _ hu
+    split <;> exact key
+
+/-- C19: after a user MODE command the three user-mode counters are exact -/
+theorem umode_counters_exact {target : Str} {modes : List (Str × List Str)} (h : InvCore x.w) :
+    let w' := (processModeUser cfg c target modes x).w
+    w'.invisibleCount = (w'.users.filter (fun p => p.2.modes.invisible)).length ∧
+    w'.operatorsCount = (w'.users.filter (fun p => p.2.modes.isLocalOper)).length ∧
+    ∀ n, KSet.mem n w'.wallops = true ↔ ∃ u, Map.lookup n w'.users = some u ∧ u.modes.wallops = true := by
+  intro w'
+  cases hu : Map.lookup target x.w.users with
+  | none =>
+    have : w' = x.w.panic "mode: users.get_mut(target).unwrap" := by
+      simp only [w', processModeUser, hu]; rfl
+    rw [this]
+    exact ⟨h.invisibleCount, h.operatorsCount, h.wallopsSet⟩
+  | some u =>
+    have h' := (invCore_processModeUser (cfg := cfg) (c := c) (modes := modes) h hu).1
+    exact ⟨h'.invisibleCount, h'.operatorsCount, h'.wallopsSet⟩
+
+/-- C19: after OPER the operator counter is exact -/
+theorem oper_counter_exact {name password : Str} (h : InvCore x.w) :
+    let w' := (processOper cfg c name password x).w
+    w'.operatorsCount = (w'.users.filter (fun p => p.2.modes.isLocalOper)).length := by
+  intro w'
+  have hgoal : ∀ w'' : World, w''.operatorsCount = x.w.operatorsCount → w''.users = x.w.users →
+      w''.operatorsCount = (w''.users.filter (fun p => p.2.modes.isLocalOper)).length := by
+    intro w'' e1 e2; rw [e1, e2]; exact h.operatorsCount
+  simp only [w']
+  unfold processOper
+  simp only
+  cases (x.conn c).nick with
+  | none => exact hgoal _ rfl rfl
+  | some n =>
+    simp only
+    cases cfg.findOper name with
+    | none => exact hgoal _ rfl rfl
+    | some op =>
+      simp only
+      cases hu : Map.lookup n x.w.users with
+      | none => exact hgoal _ rfl rfl
+      | some u =>
+        simp only
+        repeat' split
+        all_goals first
+          | exact hgoal _ rfl rfl
+          | (rename_i hb; have := (invCore_oper_world h hu).1.operatorsCount
+             simp only [hb, ↓reduceIte] at this; exact this)
+
+/-! ### MODE (channel) -/
+
+/-- **the simulation lemma**: a channel MODE whose mode string passed `validateChannelmodes`
+    never reaches the panic sites of `modeChar` ("rank letter without argument", "+l without
+    argument", "+l parse unwrap", "+k without argument", "add/remove rank unwrap") — the world
+    component is untouched by the whole loop -/
+theorem modeGroup_no_arg_panic {cn : Conn} {target t : Str} {chum : ChanUserModes} {ch : Channel}
+    {modes : List (Str × List Str)} (hrm : RankMirror ch)
+    (hv : validateChannelmodes t modes = .ok ()) :
+    (modes.foldl (modeGroup cfg cn target chum) { x := x, ch := ch, args := [] }).x.w = x.w :=
+  (modeGroups_inv (w0 := x.w) (ch0 := ch) modes hv ⟨rfl, rfl, hrm, rfl⟩).w
+
+theorem invCore_processModeChannel {target t : Str} {ch : Channel} {chum : ChanUserModes}
+    {modes : List (Str × List Str)} (h : InvCore x.w)
+    (hch : Map.lookup target x.w.channels = some ch)
+    (hv : validateChannelmodes t modes = .ok ()) :
+    InvCore (processModeChannel cfg c target ch modes chum x).w ∧
+      SameConnIds x.w (processModeChannel cfg c target ch modes chum x).w := by
+  unfold processModeChannel
+  simp only
+  split
+  · exact invCore_of_w_eq h rfl
+  · have hf := modeGroups_inv (cfg := cfg) (cn := x.conn c) (target := target) (chum := chum)
+      (w0 := x.w) (ch0 := ch) modes hv (a := { x := x, ch := ch, args := [] })
+      ⟨rfl, rfl, h.rankMirror _ _ hch, rfl⟩
+    generalize (modes.foldl (modeGroup cfg (x.conn c) target chum)
+      ({ x := x, ch := ch, args := [] } : ModeAcc)) = a at hf
+    have hw : InvCore ({ a.x.w with channels := Map.insert target a.ch a.x.w.channels } : World) := by
+      refine invCore_channel_update h hch hf.keys hf.rm hf.pre ?_ ?_ ?_ ?_ ?_ ?_ ?_ ?_ ?_ <;>
+        simp only [hf.w]
+    have hs : SameConnIds x.w ({ a.x.w with channels := Map.insert target a.ch a.x.w.channels } : World) :=
+      sameConnIds_of_conns (by simp only [hf.w])
+    split
+    · rename_i line _
+      have := Ctx.sendAll_w_eq
+        (a.x.modifyW (fun w => { w with channels := Map.insert target a.ch w.channels }))
+        (Map.keys a.ch.users) (':' :: ((x.conn c).source ++ ' ' :: line)) (by
+          intro n hn
+          have hc := (Map.contains_iff _ _).mpr ((Map.mem_keys_iff n a.ch.users).mp hn)
+          exact hw.memberIsUser target a.ch n (by simp) hc)
+      unfold Ctx.sendAll at this
+      unfold Ctx.sendDisplay
+      rw [this]
+      exact ⟨hw, hs⟩
+    · exact ⟨hw, hs⟩
+
+/-! ### MODE -/
+
+theorem invCore_processMode {target : Str} {modes : List (Str × List Str)} (h : InvCore x.w)
+    (hl : Live x.w c) (ha : (x.conn c).authenticated = true)
+    (hv : Command.validate (.MODE target modes) = .ok ()) :
+    InvCore (processMode cfg c target modes x).w ∧
+      SameConnIds x.w (processMode cfg c target modes x).w := by
+  obtain ⟨n, u, hn, hu, _⟩ := sender_user h hl ha
+  unfold processMode
+  simp only [hn]
+  unfold Command.validate at hv
+  by_cases hvc : validateChannel target = true
+  · simp only [hvc, ↓reduceIte] at hv ⊢
+    cases hch : Map.lookup target x.w.channels with
+    | none => exact invCore_of_w_eq h rfl
+    | some ch =>
+      simp only
+      cases hcu : Map.lookup n ch.users with
+      | none => exact invCore_of_w_eq h rfl
+      | some chum => exact invCore_processModeChannel h hch hv
+  · simp only [hvc, Bool.false_eq_true, ↓reduceIte]
+    split
+    · rename_i e
+      have e' : n = target := by simpa using e
+      subst e'
+      exact invCore_processModeUser h hu
+    · split <;> exact invCore_of_w_eq h rfl
 
 end Irc
